@@ -15,7 +15,7 @@
         (Gen/Gen_Ruler.v) computes them;
       - executable front-ends over Qc for the extracted driver (family rf).
     No proofs here. *)
-From Coq Require Import List ZArith String Bool QArith Qcanon.
+From Coq Require Import List ZArith Bool QArith Qcanon.
 From Inovesa Require Import Base.FieldKit Model.RF Model.RFDriftKit Gen.Gen_RFDrift Gen.Gen_Ruler.
 Import ListNotations.
 
@@ -28,7 +28,7 @@ Section Gen.
   Local Open Scope F_scope.
 
   (** Ruler(steps, min, max, scale) through the generated constructor expressions *)
-  Definition gen_axis (steps : Z) (mn mx : K) (sc : string -> K) : axfacts K :=
+  Definition gen_axis (steps : Z) (mn mx : K) (sc : runit -> K) : axfacts K :=
     let d := gen_ruler_delta K (fz steps) mn mx in
     mkAx (gen_ruler_zerobin K (fz steps) mn mx) d (fun i => gen_ruler_at K mn d (fz i)) sc.
 
@@ -97,8 +97,8 @@ Arguments gen_rfk_sin_ctor {K}. Arguments gen_drift_fill {K}. Arguments gen_drif
     not the model's is seen as a wrong offset. *)
 Local Open Scope Z_scope.
 
-Definition qscale (scM scE : Qc) (u : string) : Qc :=
-  if string_dec u "Meter" then scM else if string_dec u "ElectronVolt" then scE else 0%Qc.
+Definition qscale (scM scE : Qc) (u : runit) : Qc :=
+  match u with U_Meter => scM | U_ElectronVolt => scE | _ => 0%Qc end.
 
 Fixpoint sin_lookup (tbl : list (Qc * Qc)) (a : Qc) : Qc :=
   match tbl with
